@@ -3,6 +3,7 @@ package checks
 import (
 	"errors"
 	"fmt"
+	"github.com/cybergarage/go-redis/redis"
 	"testing"
 
 	"verif/sim/resp"
@@ -117,6 +118,25 @@ func runC20(t *testing.T, tape *sim.Tape, tier string) *Outcome {
 		mon.onEvent(ev)
 	}
 	c.Srv.SetTracer(tr)
+	// a quarter of the runs: some acquisitions of the command lock find it busy (as if another connection were
+	// inside a command), so that whatever the code does while it waits is exercised too
+	if tape.Draw(4, "contention") == 3 {
+		plan := make([]bool, 3*len(reqs)+4)
+		for i := range plan {
+			plan[i] = tape.Draw(2, "busy") == 1
+		}
+		nacq := 0
+		redis.VerifYield = func(point string, obj any) {
+			if point == "exec.lock" {
+				if nacq < len(plan) && plan[nacq] {
+					contend(obj, c.S)
+				}
+				nacq++
+			}
+		}
+		defer func() { redis.VerifYield = nil }()
+		o.stat("runs_with_forced_lock_contention", 1)
+	}
 	// one run in eight: the server is stopped while a command is executing (its connection is closed under it)
 	stopAt := -1
 	if tape.Draw(8, "stopduring") == 7 {
@@ -229,7 +249,7 @@ func init() {
 	register(&Check{
 		ID: "C20", Bubble: true, Run: runC20,
 		Runs:   map[string]int{"quick": 40000, "thorough": 1500000},
-		Rule:   "a case is one (pipeline, stream-end fault, delivery schedule) triple: pipelines as in C03 plus values that are not command arrays (empty, null and nested arrays, null or non-bulk command names, non-array values) (every command, valid/ill-formed/unknown, QUIT, AUTH, unauthorized state with a required password, injected handler errors) x {FIN after the last request, FIN at a request boundary, FIN inside a request, RST, corrupted frame, client gone before reading so that reply writes fail} x optionally Server.Stop() while a command is executing x seeded chunking/batching; the span-nesting invariant is evaluated at every tracer, handler and reply-write event; distinct = distinct (config, end mode, cut, chunk sequence) signatures; non-trivial = stream-end fault or chunked delivery",
+		Rule:   "a case is one (pipeline, stream-end fault, delivery schedule) triple: pipelines as in C03 plus values that are not command arrays (empty, null and nested arrays, null or non-bulk command names, non-array values) (every command, valid/ill-formed/unknown, QUIT, AUTH, unauthorized state with a required password, injected handler errors) x {FIN after the last request, FIN at a request boundary, FIN inside a request, RST, corrupted frame, client gone before reading so that reply writes fail} x optionally Server.Stop() while a command is executing x optionally a busy command lock at drawn acquisitions (phantom holder released once the connection waits for it) x seeded chunking/batching; the span-nesting invariant is evaluated at every tracer, handler and reply-write event; distinct = distinct (config, end mode, cut, chunk sequence) signatures; non-trivial = stream-end fault or chunked delivery",
 		Real:   []string{"redis.Server connection loop and dispatch with a tracer installed", "go-tracing span stack (tracer/common)"},
 		Stub:   []string{"tracer: recording tracer.Tracer/Span double", "transport: simulated net.Conn", "handler: recording double"},
 		Assume: []string{"the loop's extra iteration that meets end of stream may open and close a root span of its own"},
